@@ -29,6 +29,7 @@ func newPriorityQueue[T any](w *worker[T, iJob[T]], pq IPriorityQueue) *priority
 
 func (q *priorityQueue[T]) Add(data T, priority int, configs ...JobConfigFunc) (EnqueuedJob, bool) {
 	j := newJob(data, loadJobConfigs(q.w.configs(), configs...))
+	j.changeStatus(queued)
 
 	if ok := q.internalQueue.Enqueue(j, priority); !ok {
 		j.Close()
@@ -36,7 +37,6 @@ func (q *priorityQueue[T]) Add(data T, priority int, configs ...JobConfigFunc) (
 	}
 
 	q.w.Metrics().incSubmitted()
-	j.changeStatus(queued)
 	q.w.notifyToPullNextJobs()
 
 	return j, true
@@ -48,13 +48,14 @@ func (q *priorityQueue[T]) AddAll(items []Item[T]) EnqueuedGroupJob {
 	for _, item := range items {
 		j := groupJob.newJob(item.Data, loadJobConfigs(q.w.configs(), WithJobId(item.ID)))
 
+		j.changeStatus(queued)
+
 		if ok := q.internalQueue.Enqueue(j, item.Priority); !ok {
 			j.Close()
 			continue
 		}
 
 		q.w.Metrics().incSubmitted()
-		j.changeStatus(queued)
 		q.w.notifyToPullNextJobs()
 	}
 
@@ -89,6 +90,7 @@ func newResultPriorityQueue[T, R any](w *worker[T, iResultJob[T, R]], pq IPriori
 
 func (q *resultPriorityQueue[T, R]) Add(data T, priority int, configs ...JobConfigFunc) (EnqueuedResultJob[R], bool) {
 	j := newResultJob[T, R](data, loadJobConfigs(q.w.configs(), configs...))
+	j.changeStatus(queued)
 
 	if ok := q.internalQueue.Enqueue(j, priority); !ok {
 		j.Close()
@@ -96,7 +98,6 @@ func (q *resultPriorityQueue[T, R]) Add(data T, priority int, configs ...JobConf
 	}
 
 	q.w.Metrics().incSubmitted()
-	j.changeStatus(queued)
 	q.w.notifyToPullNextJobs()
 
 	return j, true
@@ -108,13 +109,14 @@ func (q *resultPriorityQueue[T, R]) AddAll(items []Item[T]) EnqueuedResultGroupJ
 	for _, item := range items {
 		j := groupJob.newJob(item.Data, loadJobConfigs(q.w.configs(), WithJobId(item.ID)))
 
+		j.changeStatus(queued)
+
 		if ok := q.internalQueue.Enqueue(j, item.Priority); !ok {
 			j.Close()
 			continue
 		}
 
 		q.w.Metrics().incSubmitted()
-		j.changeStatus(queued)
 		q.w.notifyToPullNextJobs()
 	}
 
@@ -149,6 +151,7 @@ func newErrorPriorityQueue[T any](w *worker[T, iErrorJob[T]], pq IPriorityQueue)
 
 func (q *errorPriorityQueue[T]) Add(data T, priority int, configs ...JobConfigFunc) (EnqueuedErrJob, bool) {
 	j := newErrorJob(data, loadJobConfigs(q.w.configs(), configs...))
+	j.changeStatus(queued)
 
 	if ok := q.internalQueue.Enqueue(j, priority); !ok {
 		j.Close()
@@ -156,7 +159,6 @@ func (q *errorPriorityQueue[T]) Add(data T, priority int, configs ...JobConfigFu
 	}
 
 	q.w.Metrics().incSubmitted()
-	j.changeStatus(queued)
 	q.w.notifyToPullNextJobs()
 
 	return j, true
@@ -168,13 +170,14 @@ func (q *errorPriorityQueue[T]) AddAll(items []Item[T]) EnqueuedErrGroupJob {
 	for _, item := range items {
 		j := groupJob.newJob(item.Data, loadJobConfigs(q.w.configs(), WithJobId(item.ID)))
 
+		j.changeStatus(queued)
+
 		if ok := q.internalQueue.Enqueue(j, item.Priority); !ok {
 			j.Close()
 			continue
 		}
 
 		q.w.Metrics().incSubmitted()
-		j.changeStatus(queued)
 		q.w.notifyToPullNextJobs()
 	}
 
